@@ -38,6 +38,7 @@ fn part_for(rng: &mut Rng, style: u64, tid: usize) -> String {
         1 => format!("t{}", tid),                        // one part per thread
         2 => format!("a_{}", rng.below(3)),              // parts that end like "_<number>": the {}_{}_{} ambiguity
         3 => format!("p_{}_{}", std::process::id(), rng.below(4)), // parts that contain the pid and a number
+        5 => "n".repeat([200usize, 245, 250, 255, 300][rng.below(5) as usize]),   // close to and beyond NAME_MAX (no file is created)
         _ => ["x", "with-dash.and.dots", "7", "_", "sds_c20_"][rng.below(5) as usize].to_string(),
     }
 }
@@ -159,7 +160,7 @@ pub fn run(rng: &mut Rng, out: &mut Out, thorough: bool, _variant: &str) {
         }
         for &(t, k) in grid.iter() {
             {
-                let style = rng.below(5);
+                let style = rng.below(6);
                 let parts: Vec<String> = (0..t).map(|tid| part_for(rng, style, tid)).collect();
                 // the counter is process-global: one sentinel call tells where this run starts
                 let sentinel = serialize::temp_file_name("sentinel");
